@@ -9,6 +9,7 @@ package gabi
 // and commitments pairwise distinct).
 
 import (
+	"encoding/json"
 	"fmt"
 	"math/rand"
 	"runtime"
@@ -19,6 +20,7 @@ import (
 	"github.com/privacybydesign/gabi/big"
 	"github.com/privacybydesign/gabi/gabikeys"
 	"github.com/privacybydesign/gabi/internal/vfh"
+	"github.com/privacybydesign/gabi/internal/vfk"
 )
 
 func TestVF_C20_Credential(t *testing.T) {
@@ -34,10 +36,30 @@ func TestVF_C20_Credential(t *testing.T) {
 		g := []int{2, 4, 16, 64}[rep%4]
 		procs := []int{1, 2, 4, 16}[(rep/4)%4]
 		runtime.GOMAXPROCS(procs)
-		kp := getKey("toyrev", rep%8)
+		// a FRESH key object per repetition (same values as the cached fixture): lazily initialised
+		// state inside a key must be safe at its first, concurrent use
+		kp := vfk.Toy(rep%8, vfNBases, true)
 		w, err := newC07World(kp, 1, bi(int64(424242+rep)))
 		if err != nil {
 			t.Fatal(err)
+		}
+		// proofs for pure verifiers, made beforehand under the cached key object (equal values)
+		old := getKey("toyrev", rep%8)
+		wOld, err := newC07World(old, 1, bi(int64(99+rep)))
+		if err != nil {
+			t.Fatal(err)
+		}
+		type pre struct {
+			p     *ProofD
+			nonce *big.Int
+		}
+		var premade []pre
+		for i := 0; i < 4; i++ {
+			n := bi(int64(555000 + i))
+			p, err := wOld.creds[0].cred.CreateDisclosureProof([]int{1}, c07Stmts(i%2 == 0), true, bi(1), n)
+			if err == nil && !c11Ambiguous(p) {
+				premade = append(premade, pre{p, n})
+			}
 		}
 		cred := w.creds[0]
 		// second credential for S2: other provers under the same public key and accumulator object
@@ -72,6 +94,15 @@ func TestVF_C20_Credential(t *testing.T) {
 				}
 				mu.Unlock()
 				defer func() { mu.Lock(); running--; mu.Unlock() }()
+				if i%3 == 0 && len(premade) > 0 { // pure verifier on the fresh key object
+					pm := premade[i%len(premade)]
+					js, _ := json.Marshal(pm.p)
+					var back ProofD
+					_ = json.Unmarshal(js, &back)
+					if !back.Verify(kp.Pk, bi(1), pm.nonce, false) {
+						addProblem("pre-made proof rejected under the fresh key object")
+					}
+				}
 				for _, tk := range plans[i] {
 					nonce := bi(int64(tk.nonce))
 					ctx := bi(1)
